@@ -2408,6 +2408,138 @@ example : recvAll (Drv.tableCodec [] []) 100 [[0, 0, 0, 2, 7, 7, 0, 0, 0, 1, 9, 
     recvAll (Drv.tableCodec [] []) 100 [[0, 0, 0, 2, 7, 7, 0, 0], [0]] = [.refused .short, .closed .eof] := by
   constructor <;> rfl
 
+/-! ### round 7: the local and the wire path of `Router.Send`; field numbers of the protobuf library -/
+
+/-- what a processor sees of a processed envelope: the type id and the value -/
+def EnvEvent.payload {V : Type} : EnvEvent V → Option (List Nat × V)
+  | .processed e => some (e.msgType, e.msg)
+  | _ => none
+
+/-- **the local path and the wire path of `Router.Send` are equivalent** (router.go:316-337 vs. the
+connection path): for every sequence of values that are sendable (registered type, encodable), have a
+processor and fit the frame limit, the processors of a router that sends to itself are handed exactly the
+type ids and values, in the order, that the processors of a remote router are handed after `Marshal`,
+framing, any segmentation of the byte stream, `receiveRaw` and `Unmarshal`; both `Send`s report success.
+The envelopes differ in `ServerIdentity` (the router itself / the peer of the connection) and `Size`
+(0 / the marshalled length) only.  (Falsified by: a self path that dispatches under another type id or
+skips the dispatcher test, a wire path that alters, drops or reorders.) -/
+theorem c03_self_send_equals_wire {V : Type} (r : Registry) (tc : TCodec V) (hsound : (codecOf r tc).Sound)
+    (self remote max : Nat) (hmax : max < 2^32) (procs : List (List Nat)) (vs : List V)
+    (hv : ∀ v ∈ vs, (codecOf r tc).sendable v = true ∧ procs.contains (typeIdOf (tc.typeOf v)) = true ∧
+      (bufOf (codecOf r tc) v).length ≤ max)
+    (fuel : Nat) (hfuel : vs.length + 1 ≤ fuel) (c : Segs)
+    (hc : c.flatten = wire (vs.map (bufOf (codecOf r tc)))) :
+    (selfSend r tc self procs vs).1.map (fun e => (e.msgType, e.msg)) =
+      (recvEnvLoop (codecOf r tc) max remote procs fuel c).filterMap EnvEvent.payload ∧
+    (selfSend r tc self procs vs).2 = true := by
+  rw [c03_self_send r tc self procs vs (fun v h => ⟨(hv v h).1, (hv v h).2.1⟩)]
+  rw [c03_envelope_fields (codecOf r tc) hsound max remote hmax procs vs
+    (fun v h => ⟨(hv v h).1, (hv v h).2.2⟩) fuel hfuel c hc]
+  refine ⟨?_, rfl⟩
+  simp only [List.map_map, List.filterMap_append, List.filterMap_cons, EnvEvent.payload, List.filterMap_nil,
+    List.append_nil]
+  clear hc hfuel
+  induction vs with
+  | nil => rfl
+  | cons v rest ih =>
+    have hp : procs.contains ((codecOf r tc).tyOf v) = true := (hv v (by simp)).2.1
+    simp only [List.map_cons, List.filterMap_cons, hp, if_true, EnvEvent.payload, Function.comp]
+    rw [← ih (fun w hw => hv w (by simp [hw]))]
+    simp [codecOf, Function.comp]
+
+
+/-! #### field numbers (`Model/C03Fields.lean`) -/
+namespace Fields
+
+mutual
+theorem idsOf_untagged : ∀ (f : SField) (id : Nat), untaggedOf f = true →
+    idsOf id f = (List.range' (id + 1) (leavesOf f), id + leavesOf f)
+  | .plain tag, id, h => by
+    have : tag = 0 := by simpa [untaggedOf] using h
+    subst this
+    simp [idsOf, leavesOf]
+  | .emb tag fs, id, h => by
+    have h' : tag = 0 ∧ untaggedAll fs = true := by simpa [untaggedOf] using h
+    obtain ⟨rfl, hfs⟩ := h'
+    simp only [idsOf, leavesOf]
+    have := idsAll_untagged fs id hfs
+    simpa using this
+termination_by structural f => f
+theorem idsAll_untagged : ∀ (fs : List SField) (id : Nat), untaggedAll fs = true →
+    idsAll id fs = (List.range' (id + 1) (leavesAll fs), id + leavesAll fs)
+  | [], id, _ => by simp [idsAll, leavesAll]
+  | f :: fs, id, h => by
+    have h' : untaggedOf f = true ∧ untaggedAll fs = true := by simpa [untaggedAll] using h
+    simp only [idsAll, leavesAll, idsOf_untagged f id h'.1, idsAll_untagged fs (id + leavesOf f) h'.2]
+    refine Prod.ext ?_ (by simp; omega)
+    simp only
+    rw [show id + leavesOf f + 1 = id + 1 + leavesOf f by omega, ← List.range'_append_1]
+termination_by structural fs => fs
+end
+
+
+/-- **field numbers of a tag-free struct type are positions**: whatever embedded structs it has, at
+whatever depth, `ProtoFields` numbers the wire fields `1, 2, …, n` in the order of the flattened field list
+and does not panic — the positional numbering of `Model/C03Wire.lean` (`encMsg 1`, the cursor of `decMsg`)
+is the library's for every such type.  (Falsified by: an embedded struct that takes a number of its own, a
+counter that restarts inside an embedded struct, numbering from 0.) -/
+theorem c03_field_numbers_are_positions (fs : List SField) (h : untaggedAll fs = true) :
+    protoFields fs = some (List.range' 1 (leavesAll fs)) := by
+  have := idsAll_untagged fs 0 h
+  simp only [protoFields, this, Nat.zero_add]
+  rw [if_pos (List.nodup_range' (s := 1) (n := leavesAll fs))]
+
+theorem seek_skip (n : Nat) (pre l : List Nat) (h : ∀ p ∈ pre, p < n) : seek n (pre ++ l) = seek n l := by
+  induction pre with
+  | nil => rfl
+  | cons p pre ih =>
+    have hp : p < n := h p (by simp)
+    simp only [List.cons_append, seek, hp, if_true]
+    exact ih (fun q hq => h q (by simp [hq]))
+
+theorem findsAll_suffix (entries : List Nat) : ∀ (pre : List Nat), entries.Pairwise (· < ·) →
+    (∀ p ∈ pre, ∀ e ∈ entries, p < e) → findsAll (pre ++ entries) entries = true := by
+  induction entries with
+  | nil => intro _ _ _; rfl
+  | cons n es ih =>
+    intro pre hs hpre
+    have h1 : seek n (pre ++ n :: es) = (true, n :: es) := by
+      rw [seek_skip n pre (n :: es) (fun p hp => hpre p hp n (by simp))]
+      simp [seek]
+    simp only [findsAll, h1, Bool.true_and]
+    have hs' := List.pairwise_cons.mp hs
+    exact ih [n] hs'.2 (fun p hp e he => by
+      have : p = n := by simpa using hp
+      subst this
+      exact hs'.1 e he)
+
+/-- **the decoder's cursor finds every field** when the field numbers increase with the field order — it
+only moves forward (`decode.go:117-121`): each entry the encoder wrote is stored in its field -/
+theorem c03_cursor_finds_sorted (ids : List Nat) (h : ids.Pairwise (· < ·)) : findsAll ids ids = true :=
+  findsAll_suffix ids [] h (by simp)
+
+/-- … in particular for every tag-free struct type, embedded structs included: numbering and cursor of
+the library agree with the positional model -/
+theorem c03_untagged_all_fields_found (fs : List SField) (h : untaggedAll fs = true) :
+    ∃ ids, protoFields fs = some ids ∧ findsAll ids ids = true :=
+  ⟨_, c03_field_numbers_are_positions fs h, c03_cursor_finds_sorted _ (List.pairwise_lt_range' (s := 1))⟩
+
+/-- what tags can do (negation witnesses; none of onet's own messages carries a numeric tag — the only tag
+is `protobuf:"opt"` on `ServerIdentity.URL`, which has no number): a tag that repeats a number makes
+`ProtoFields` panic, and numbers that do not increase with the field order make the forward-only cursor
+miss a field that *was* encoded -/
+theorem c03_tags_can_break_numbering :
+    protoFields [.plain 0, .plain 1] = none ∧
+    protoFields [.plain 2, .plain 1] = some [2, 1] ∧ findsAll [2, 1] [2, 1] = false ∧
+    protoFields [.plain 0, .emb 7 [.plain 0, .plain 0], .plain 0] = some [1, 7, 8, 9] := by decide
+
+/-- non-vacuity: two levels of embedding, the numbers run through -/
+example : protoFields [.plain 0, .emb 0 [.plain 0, .emb 0 [.plain 0], .plain 0], .plain 0] = some [1, 2, 3, 4, 5] := by
+  decide
+
+end Fields
+
+
 /-! ### the code regions the model stands for
 Regenerated from /repo's source on every run (`harness/cmd/astfacts` → `OnetVerif/Shapes.lean`): the
 calls that matter for synchronisation and data flow, the lock regions and (for decision logic) the
